@@ -51,21 +51,80 @@ def _meth(name, dims, args, ref, result="scalar", power=1, **kw):
     return op
 
 
-def keyword_call(op, v, args):
-    """the same public call with every argument passed by keyword (parameter names from the live signature);
-    None when the catalogue's call is not the plain positional one"""
-    import inspect
+_PINNED = None
 
+
+def pinned_params(cls, name):
+    """[(parameter name, kind, repr(default) or None)] of a public method as pinned from the documented signatures of the
+    pinned tree (vmon/api_params.json), looked up through the MRO (the 60-digit classes subclass the object classes)"""
+    global _PINNED
+    if _PINNED is None:
+        import json
+        import os
+
+        with open(os.path.join(os.path.dirname(os.path.abspath(__file__)), "api_params.json")) as f:
+            _PINNED = json.load(f)
+    for c in cls.__mro__:
+        if c.__name__ in _PINNED:
+            return _PINNED[c.__name__].get(name)
+    return None
+
+
+def keyword_call(op, v, args):
+    """the same public call with every argument passed by keyword, under the *documented* parameter names (pinned in
+    api_params.json, not read from the live signature: a renamed parameter must not go unnoticed);
+    None when the catalogue's call is not the plain positional one"""
     if getattr(op, "positional_call", None) is not op.call or not args:
         return None
-    meth = getattr(type(v), op.name, None)
-    if meth is None:
+    pinned = pinned_params(type(v), op.name)
+    if pinned is None:
         return None
-    params = [p.name for p in list(inspect.signature(meth).parameters.values())[1:]
-              if p.kind in (p.POSITIONAL_OR_KEYWORD, p.KEYWORD_ONLY)]
+    params = [p[0] for p in pinned if p[1] in ("POSITIONAL_OR_KEYWORD", "KEYWORD_ONLY")]
     if len(params) < len(args):
         return None
     return lambda: getattr(v, op.name)(**dict(zip(params, args)))
+
+
+def signature_drift():
+    """differences between the live signatures of the public methods of the six object classes and the pinned ones that
+    break a documented call: a parameter removed, renamed, reordered, changed in kind or in default value (new
+    optional parameters are compatible and ignored).  -> [(class, method, what)]"""
+    import inspect
+
+    import vector
+
+    pinned_params(vector.VectorObject2D, "x")
+    out = []
+    for cname, meths in _PINNED.items():
+        cls = getattr(vector, cname)
+        for name, pinned in meths.items():
+            m = getattr(cls, name, None)
+            if m is None:
+                out.append((cname, name, "method removed"))
+                continue
+            try:
+                live = [(p.name, p.kind.name, None if p.default is p.empty else repr(p.default))
+                        for p in list(inspect.signature(m).parameters.values())[1:]]
+            except (TypeError, ValueError):
+                continue
+            live_names = [p[0] for p in live]
+            pos_pinned = [p[0] for p in pinned if p[1] == "POSITIONAL_OR_KEYWORD"]
+            pos_live = [p[0] for p in live if p[1] == "POSITIONAL_OR_KEYWORD"]
+            if pos_live[: len(pos_pinned)] != pos_pinned:
+                out.append((cname, name, f"positional parameters {pos_live} (documented {pos_pinned})"))
+                continue
+            for p in pinned:
+                if p[1] in ("VAR_KEYWORD", "VAR_POSITIONAL"):
+                    continue
+                if p[0] not in live_names:
+                    out.append((cname, name, f"parameter {p[0]!r} no longer accepted"))
+                else:
+                    q = live[live_names.index(p[0])]
+                    if q[1] != p[1] and not (p[1] == "KEYWORD_ONLY" and q[1] == "POSITIONAL_OR_KEYWORD"):
+                        out.append((cname, name, f"parameter {p[0]!r} is now {q[1]} (documented {p[1]})"))
+                    elif q[2] != p[2]:
+                        out.append((cname, name, f"default of {p[0]!r} is now {q[2]} (documented {p[2]})"))
+    return out
 
 
 same = lambda d: (d,)  # noqa: E731
